@@ -1160,7 +1160,26 @@ def _run_der_sweep(case, mon, viol, info):
                 _call('import_private_key', asyncssh.import_private_key, p8,
                       (KeyImportError, KeyEncryptionError), meter, mon, viol,
                       stats)
-        mon['der_sweep_inputs'] += len(inputs)
+        # every importer on the small DER-looking inputs (anything starting
+        # with a SEQUENCE tag is probed as an X.509 certificate first),
+        # bare and in PEM armour
+        import base64
+        small = [d for d in inputs if len(d) <= 2 and d[:1] == b'\x30'] + \
+            [d for d in inputs[-3072::97]]
+        for data in small:
+            pem = b'-----BEGIN CERTIFICATE-----\n' + \
+                base64.b64encode(data) + b'\n-----END CERTIFICATE-----\n'
+            for name, fn, allowed in (
+                    ('import_certificate', asyncssh.import_certificate,
+                     (KeyImportError,)),
+                    ('import_public_key', asyncssh.import_public_key,
+                     (KeyImportError,)),
+                    ('import_private_key', asyncssh.import_private_key,
+                     (KeyImportError, KeyEncryptionError))):
+                _call(name, fn, data, allowed, meter, mon, viol, stats)
+            _call('import_certificate', asyncssh.import_certificate, pem,
+                  (KeyImportError,), meter, mon, viol, stats)
+        mon['der_sweep_inputs'] += len(inputs) + 4 * len(small)
     finally:
         meter.disarm()
         meter.uninstall()
